@@ -171,7 +171,7 @@ def _with_pairs(fn_node, defs):
             for t, v in zip(n.targets[0].elts, n.value.elts):
                 if isinstance(t, ast.Name) and stores.get(t.id) == 1 and t.id not in params and t.id not in out:
                     out[t.id] = v
-    # the result variable of an expanded helper with ONE unconditional return: `_ret = None` ... `_ret = <value>` in the same block
+    # the result variable of an expanded helper with one unconditional return: `_ret = None` ... `_ret = <value>` in the same block
     for holder in ast.walk(fn_node):
         for fld in ("body", "orelse", "finalbody"):
             blk = getattr(holder, fld, None)
@@ -186,6 +186,18 @@ def _with_pairs(fn_node, defs):
                             init[nm] = st
                         elif nm in init:
                             out[nm] = st.value
+    # a local that remembers a field the function re-binds (`previous = self._parent` ... `self._parent = new`) is not a name for the
+    # field: it holds the old value
+    rebound = {x.attr for x in ast.walk(fn_node) if isinstance(x, ast.Attribute) and isinstance(x.ctx, (ast.Store, ast.Del)) and isinstance(x.value, ast.Name) and x.value.id == "self"}
+    if rebound:
+        def names_field(v):  # `self.f`, `self.f.g`, `self.f[i]`: a path rooted at a re-bound field (a computed value is a snapshot, fine)
+            while isinstance(v, (ast.Attribute, ast.Subscript)):
+                if isinstance(v, ast.Attribute) and v.attr in rebound and isinstance(v.value, ast.Name) and v.value.id == "self":
+                    return True
+                v = v.value
+            return False
+
+        out = {k: v for k, v in out.items() if not names_field(v)}
     return out
 
 
